@@ -25,6 +25,7 @@ PROP = {
         {"pkg": "c15", "test": "TestBatchInvarianceProductionTree", "quick": 500, "thorough": 2500, "shards": 16},
         {"pkg": "c15", "test": "TestWitnessF1SilentConvergence", "kind": "plain"},
         {"pkg": "c15", "test": "TestWitnessF2ConstantBesideParameter", "kind": "plain"},
+        {"pkg": "c15", "test": "TestWitnessF3LostTerminalValue", "kind": "plain"},
     ],
     "technique": ("property-based testing (rapid): conservation against an independent fold over the raw records, metamorphic batch-invariance "
                   "(single batch vs two random partitions), persistence round trip and restart histories through the real state file"),
